@@ -303,6 +303,17 @@ func runC29(c *fw.Ctx) {
 	add("Checkout(branch b, sparse directory that does not exist)", "Checkout(sparse, missing directory)", "Checkout", nil, func(r *git.Repository, w *mcfs.World) error {
 		return wtOf(r).Checkout(&git.CheckoutOptions{Branch: "refs/heads/b", SparseCheckoutDirectories: []string{"no-such-dir"}})
 	})
+	// the same refusal when the target is the very commit HEAD is on (nothing to switch, only HEAD/branch would move)
+	add("Checkout(-b new at HEAD, sparse directory that does not exist)", "Checkout(sparse, missing directory)", "", nil, func(r *git.Repository, w *mcfs.World) error {
+		return wtOf(r).Checkout(&git.CheckoutOptions{Branch: "refs/heads/new-at-head", Create: true, SparseCheckoutDirectories: []string{"no-such-dir"}})
+	})
+	add("Checkout(detach at HEAD's own commit, sparse directory that does not exist)", "Checkout(sparse, missing directory)", "", nil, func(r *git.Repository, w *mcfs.World) error {
+		h, err := r.Head()
+		if err != nil {
+			fw.Abort("head: %v", err)
+		}
+		return wtOf(r).Checkout(&git.CheckoutOptions{Hash: h.Hash(), SparseCheckoutDirectories: []string{"no-such-dir"}})
+	})
 	add("Reset(hard, c1, sparse directory that does not exist)", "Reset(hard)", "", nil, func(r *git.Repository, w *mcfs.World) error {
 		return wtOf(r).Reset(&git.ResetOptions{Mode: git.HardReset, Commit: c1, SparseDirs: []string{"no-such-dir"}})
 	})
